@@ -88,7 +88,7 @@ class _DocumentConverter(documents.element_visitor(args=1)):
         notes_list = html.element("ol", {}, self._visit_all(notes, context))
         comments = html.element("dl", {}, [
             html_node
-            for referenced_comment in self._referenced_comments
+            for referenced_comment in list(self._referenced_comments)
             for html_node in self.visit_comment(referenced_comment, context)
         ])
         return nodes + [notes_list, comments]
